@@ -308,6 +308,13 @@ pub fn run_c19(cx: &Ctx) -> i32 {
                 variants.push((format!("T2 (?#c) at {}", b), insert_at(&pattern, &[b], "(?#c)"), true));
             }
             variants.push(("T2 (?#c) everywhere".into(), insert_at(&pattern, &bs, "(?#c)"), true));
+            // comment bodies with escapes, multi-byte characters and syntax characters
+            for body in ["(?#)", "(?#\\é)", "(?#é\\)x)", "(?#😀\\\\)", "(?# [(|*+?{\\) )", "(?#\\€\\😀)"] {
+                variants.push((format!("T2 {} everywhere", body), insert_at(&pattern, &bs, body), true));
+                if let Some(&b) = bs.first() {
+                    variants.push((format!("T2 {} at {}", body, b), insert_at(&pattern, &[b], body), true));
+                }
+            }
             // T3: numbered <-> named / relative / numeric-name references
             if facts.n_groups >= 1 {
                 for (nm, naming) in [("T3 (?<n>) \\k<n>", Naming::Angle), ("T3 (?P<n>) (?P=n)", Naming::Python), ("T3 \\k'n'", Naming::Quote)] {
@@ -440,7 +447,7 @@ pub fn run_c19(cx: &Ctx) -> i32 {
         t,
         Finish {
             rule: format!(
-                "every pattern of {} x respelling transformers, each at every applicable site and at all sites at once: T1 free spacing under (?x) (blank, newline, '# c\\n' at every token boundary), T2 (?#c) comments at every token boundary, T3 numbered <-> named groups with \\k<n>, (?P=n), \\k'n', relative \\k<-n>, numeric names \\k<N> and named conditions, T4 scoped flag groups <-> inline flags ((?f:X) <-> (?:(?f)X), leading (?f) <-> enclosing (?f:..), ((?f)X) <-> ((?f:X))), T5 \\h, \\e, \\A, \\z, \\xHH, \\x{{H}}, \\uHHHH, \\UHHHHHHHH versus their expansions, T6 possessive quantifier <-> atomic group, T7 quantifier spellings (? * + and exact counts written as explicit lo,hi ranges), \\Z <-> (?=\\n*\\z) (results only); oracle: (i) Expr::parse_tree results equal (derived PartialEq on the tree and the backreference set), (ii) identical captures_from_pos on every text over {:?} up to length {} and every offset; non-trivial = compared cases with a match",
+                "every pattern of {} x respelling transformers, each at every applicable site and at all sites at once: T1 free spacing under (?x) (blank, newline, '# c\\n' at every token boundary), T2 (?#c) comments (also with empty, escaped, multi-byte and syntax-character bodies) at every token boundary, T3 numbered <-> named groups with \\k<n>, (?P=n), \\k'n', relative \\k<-n>, numeric names \\k<N> and named conditions, T4 scoped flag groups <-> inline flags ((?f:X) <-> (?:(?f)X), leading (?f) <-> enclosing (?f:..), ((?f)X) <-> ((?f:X))), T5 \\h, \\e, \\A, \\z, \\xHH, \\x{{H}}, \\uHHHH, \\UHHHHHHHH versus their expansions, T6 possessive quantifier <-> atomic group, T7 quantifier spellings (? * + and exact counts written as explicit lo,hi ranges), \\Z <-> (?=\\n*\\z) (results only); oracle: (i) Expr::parse_tree results equal (derived PartialEq on the tree and the backreference set), (ii) identical captures_from_pos on every text over {:?} up to length {} and every offset; non-trivial = compared cases with a match",
                 space.describe(), alphabet, max_len
             ),
             exhaustive: true,
